@@ -26,6 +26,8 @@ from props import PROPS  # per-property configuration
 import predicates
 import shrink as shrinker
 
+TZ_DEPENDENT = [' ' + n.encode().hex() + ' ' for n in ('date_to_rfc3339', 'date_to_rfc2822')]
+
 def log(*a):
     print(*a, file=sys.stderr, flush=True)
 
@@ -110,8 +112,8 @@ def run_model(inp_path, out_path):
     from concurrent.futures import ThreadPoolExecutor
     lines = open(inp_path).read().split('\n')
     if lines and lines[-1] == '': lines.pop()
-    k = max(1, min(16, len(lines) // 4000, os.cpu_count() or 1)) if len(lines) >= 8000 or any(l.startswith('tmrange') for l in lines[:3]) else 1
-    if any(l.startswith('tmrange') for l in lines[:3]): k = max(1, min(16, len(lines)))
+    k = max(1, min(16, len(lines) // 4000, os.cpu_count() or 1)) if len(lines) >= 8000 or any(l.startswith(('tmrange', 'scanrange')) for l in lines[:3]) else 1
+    if any(l.startswith(('tmrange', 'scanrange')) for l in lines[:3]): k = max(1, min(16, len(lines)))
     # interleave so that expensive lines are spread evenly
     parts = [lines[i::k] for i in range(k)]
     def work(i):
@@ -151,6 +153,22 @@ def impl_violations(st, binary, lines, workdir, tag='shrink'):
     return bad
 
 # ---------------------------------------------------------------- audit
+def expand_case(st, binary, line, workdir):
+    """a range request whose digest differs -> the first individual request of that range on which model and crate differ"""
+    try:
+        r = subprocess.run([binary, st['expand']] + line.split(' ')[1:], stdout=subprocess.PIPE, stderr=subprocess.DEVNULL, env=ENV, timeout=600)
+        fl = [l for l in r.stdout.decode().split('\n') if l]
+        if not fl: return None
+        p = os.path.join(workdir, 'expand.in'); open(p, 'w').write('\n'.join(fl) + '\n')
+        lines, exp, _ = run_impl(binary, p, os.path.join(workdir, 'expand.exp'))
+        out, rc = run_model(p, os.path.join(workdir, 'expand.out'))
+        for l, e, o in zip(lines, exp, out):
+            m = o.split(' | ')[0].strip()
+            if e.strip() != m: return (l, e, m)
+    except Exception:
+        pass
+    return None
+
 def theorems_of(module):
     path = os.path.join(LEAN, module.replace('.', '/') + '.lean')
     src = open(path).read()
@@ -316,6 +334,8 @@ def main():
             m = parts[0]; s = parts[1] if len(parts) > 1 else None
             cls = predicates.classify(name, line, e)
             dist[cls] = dist.get(cls, 0) + 1
+            # the model of date_to_rfc3339/2822 is stated for a UTC local zone; under another TZ those two are outside the model
+            if st.get('tz') and any(h in line for h in TZ_DEPENDENT): m = 'unmodelled local-time-zone'
             if m.startswith('unmodelled'): skipped += 1; continue
             if predicates.nontrivial(name, line, e): nontrivial.add(hashlib.md5(line.encode()).digest()[:8])
             if view(e) != view(m): dis_model.append((k, line, e, m))
@@ -341,7 +361,7 @@ def main():
             dis_spec.append((k, line, kind, 'a value or an error value (no crash, no hang)'))
         streams_ev[f'{name}/{build}'] = dict(cases=len(lines), distinct_nontrivial=len(nontrivial), disagreements=len(dis_model),
                                              spec_violations=len(dis_spec), unmodelled_skipped=skipped, crashes=len(crashes),
-                                             exhaustive=name.split(':')[0] in ('evaltable', 'parsekinds', 'scanfrag', 'envex'),
+                                             exhaustive=name.split(':')[0] in ('evaltable', 'parsekinds', 'scanfrag', 'envex') or (name == 'scanchars' and tier == 'thorough'),
                                              distribution=dict(sorted(dist.items(), key=lambda kv: -kv[1])[:25]),
                                              wall_s=round(time.time() - ts, 1))
         if lines: samples.append(dict(stream=name, input=lines[min(len(lines) - 1, 7)][:400], impl=(exp[min(len(exp) - 1, 7)] if exp else '')[:200]))
@@ -363,10 +383,16 @@ def main():
                              dict(stream=name, build=build, lines=[minimal or line], original_line=line if minimal else None, expected=s, actual=e,
                                   view=st.get('view', 'full'), oracle=oracle, laws=st.get('laws', []), model=st.get('model', True))))
         spec_lines = {k for (k, _, _, _) in dis_spec}
+        expanded = False
         for (k, line, e, m) in dis_model:
             if k in spec_lines: continue
-            problems.append(('model-mismatch', f'stream {name}: model `{m[:200]}` vs implementation `{e[:200]}`',
-                             dict(stream=name, build=build, lines=[line], expected=m, actual=e, view=st.get('view', 'full'), oracle=oracle)))
+            sname, sview = name, st.get('view', 'full')
+            if st.get('expand') and not expanded and replay is None:
+                expanded = True
+                f = expand_case(st, bins[build], line, workdir)
+                if f: (line, e, m), sname, sview = f, st.get('expand_stream', 'scan'), 'full'
+            problems.append(('model-mismatch', f'stream {sname}: model `{m[:200]}` vs implementation `{e[:200]}`',
+                             dict(stream=sname, build=build, lines=[line], expected=m, actual=e, view=sview, oracle=oracle)))
         if rc != 0:
             problems.append(('infra', f'driver exited with {rc} on stream {name}', ''))
 
